@@ -29,6 +29,7 @@ type cdcCodecCase struct {
 	Cont    []cdcCcmd   `json:"cont"`
 	Queries []cdcCquery `json:"queries"`
 	Junk    []byte      `json:"junk"`
+	Hung    bool        `json:"hung,omitempty"` // set by Exec when a read did not return: the case is not shrunk
 }
 
 // private driver instances used inside ExecF to obtain the model's canonical bytes
@@ -209,7 +210,17 @@ func cdcExecCodec(c *cdcCodecCase) []string {
 		return append(lines, "op panic constructor: "+err.Error(), "end")
 	}
 	defer rel.close()
-	rd := bytes.NewReader(append(append([]byte(nil), stream...), c.Junk...))
+	// pre-flight in a guarded child process: a ReadFrom that does not return on its own
+	// stream must cost the deadline once, not the run (the in-process reads below would spin)
+	withJunk := append(append([]byte(nil), stream...), c.Junk...)
+	guard := &cdcGuard{}
+	o, _ := guard.read(c.P, withJunk)
+	guard.close()
+	if o == 'h' {
+		c.Hung = true
+		return append(lines, fmt.Sprintf("op junk %d => hang", len(c.Junk)), "end")
+	}
+	rd := bytes.NewReader(withJunk)
 	n, err := rel.readFrom(rd)
 	if err != nil {
 		lines = append(lines, fmt.Sprintf("op junk %d => err", len(c.Junk)))
@@ -323,7 +334,12 @@ func init() {
 		},
 		GenF:  cdcGenCodec,
 		ExecF: cdcExecCodec,
-		LenF:  func(c *cdcCodecCase) int { return len(c.Cmds) + len(c.Cont) + len(c.Queries) },
+		LenF: func(c *cdcCodecCase) int {
+			if c.Hung {
+				return 0
+			}
+			return len(c.Cmds) + len(c.Cont) + len(c.Queries)
+		},
 		DropF: func(c *cdcCodecCase, lo, hi int) *cdcCodecCase {
 			n := *c
 			n.Cmds, n.Cont, n.Queries = nil, nil, nil
